@@ -1,6 +1,7 @@
 import XgcmModel.Model.FacePad
 import XgcmModel.Model.Metrics
 import XgcmModel.Model.Signature
+import XgcmModel.Gen.Sites
 /-
   C12 — Results do not depend on the hash seed or on table ordering.
   The model has no seed: wherever the code used to iterate a set, the (repaired) code and the model
@@ -89,6 +90,23 @@ theorem metric_choice_order_free (gridAxes q q' : List String) (hp : q.Perm q') 
 theorem equivalent_symmetric (a b : Sig) : a.equivalent b = b.equivalent a := by
   unfold Sig.equivalent
   rw [Bool.beq_comm (a := a.shape), Bool.beq_comm (a := firstIdx a.names)]
+
+/-- the places where the sources iterate over, materialise or unpack a SET, reviewed one by one: the
+    order cannot reach a result in any of them (the text of an error message; a set that holds exactly
+    one tuple; a name that is re-bound to a list before the loop; a list used for membership only) -/
+def reviewedSetIterations : List (String × String) :=
+  [("grid.py", "metric_axes"),                                   -- axes_not_found: message of the KeyError
+   ("grid.py", "overlap_metrics"),                               -- frozenset(*s): s holds one tuple per registry key
+   ("grid.py", "possible_metric_vars"),                          -- re-bound to a list (flow-insensitive analysis)
+   ("grid_ufunc.py", "list(kwargs.keys() - _allowedkwargs)"),    -- message of the TypeError
+   ("padding.py", "list(set(all_axes))")]                        -- membership tests only (`needed_axes`)
+
+/-- **No other iteration over a set exists in the sources** (`Gen.setIterations` is recomputed from
+    xgcm/*.py on every run: loops, comprehensions, list()/tuple()/zip()/enumerate()/dict.fromkeys()/
+    join() of set-typed expressions and of local names bound to them, star-unpacking, pop()). -/
+theorem set_iterations_are_the_reviewed_ones :
+    Gen.setIterations.all (fun s => reviewedSetIterations.contains (s.1, s.2.2)) = true := by
+  decide +kernel
 
 /-- non-vacuity: the same two-face table listed in two orders -/
 example : alookup 1 [(0, "a"), (1, "b")] = alookup 1 [(1, "b"), (0, "a")] := by decide
